@@ -103,6 +103,14 @@ class Scn:
             msg = ad
         elif self.sign_over == "cdj-raw":
             msg = ad + cdj
+        elif self.sign_over == "ad-without-extensions":
+            import cbor2 as _c
+            ext_used = self.ext if self.ext is not None else _c.dumps({"credProtect": 2})
+            msg = (ad[:len(ad) - len(ext_used)] if self.flags & 0x80 else ad) + hashlib.sha256(cdj).digest()
+        elif self.sign_over == "cdh-first":
+            msg = hashlib.sha256(cdj).digest() + ad
+        elif self.sign_over == "hash-of-the-base":
+            msg = hashlib.sha256(ad + hashlib.sha256(cdj).digest()).digest()
         else:
             msg = ad + hashlib.sha256(cdj).digest()
         sig = signer.sign(msg, self.sign_scheme)
@@ -274,6 +282,12 @@ def f_signer_other(s, r): s.signer_kind = s.kind; s.signer_slot = 1
 def f_stored_key_other(s, r): s.stored_key_kind = s.kind
 def f_sign_ad_only(s, r): s.sign_over = "ad-only"
 def f_sign_cdj_raw(s, r): s.sign_over = "cdj-raw"
+def f_sign_other_base(s, r):
+    # the signature covers authenticator data || SHA-256(client data) - all of the authenticator data, extension outputs included, in that order, not hashed again
+    import cbor2 as _c
+    s.sign_over = r.choice(["ad-without-extensions", "cdh-first", "hash-of-the-base", "ad-without-extensions"])
+    s.flags |= 0x80
+    s.ext = _c.dumps(r.choice([{"hmac-secret": bytes(range(32))}, {"credProtect": 2}, {"prf": {"results": {"first": b"\x01" * 32}}}, {"hmac-secret": bytes(64), "credBlob": b"blob"}]))
 def f_counter_equal(s, r):
     if s.count == 0:
         s.count = r.choice([1, 7, 2 ** 31])       # 0 = 0 is the one equal pair the rule accepts
@@ -315,7 +329,7 @@ FAULTS = {
     "id-not-b64-rawid:padded-1": id_fault("padded-1"), "id-not-b64-rawid:padded-2": id_fault("padded-2"), "id-not-b64-rawid:last-char-spare-bits": id_fault("last-char-spare-bits"),
     "id-not-b64-rawid:newline-appended": id_fault("newline-appended"), "id-not-b64-rawid:dot-inserted": id_fault("dot-inserted"), "id-not-b64-rawid:standard-alphabet": id_fault("standard-alphabet"),
     "id-not-b64-rawid:char-appended": id_fault("char-appended"), "id-not-b64-rawid:truncated": id_fault("truncated"), "id-not-b64-rawid:empty": id_fault("empty"),
-    "credential-type": f_cred_type, "challenge-base64url-alias": f_challenge_b64_alias, "origin-alias-spelling": f_origin_alias, "client-data-affix-not-signed": f_cd_unsigned_affix, "rp-id-hash-of-another-ceremony-string": f_rp_hash_of_other_string, "client-data-is-a-json-string-wrapping-the-object": f_cd_wrapped_as_string, "client-data-malformed-affix-not-signed": f_cd_unsigned_affix_malformed, "origin-expected-read-as-pattern": f_origin_pattern, "declared-algorithm-of-another-family": f_declared_alg_foreign,
+    "credential-type": f_cred_type, "challenge-base64url-alias": f_challenge_b64_alias, "origin-alias-spelling": f_origin_alias, "client-data-affix-not-signed": f_cd_unsigned_affix, "signed-over-another-arrangement-of-the-same-data": f_sign_other_base, "rp-id-hash-of-another-ceremony-string": f_rp_hash_of_other_string, "client-data-is-a-json-string-wrapping-the-object": f_cd_wrapped_as_string, "client-data-malformed-affix-not-signed": f_cd_unsigned_affix_malformed, "origin-expected-read-as-pattern": f_origin_pattern, "declared-algorithm-of-another-family": f_declared_alg_foreign,
 }
 # faults that can only be expressed in some input forms
 RECORD_ONLY = {"credential-type"}
